@@ -25,44 +25,71 @@ namespace Mem
 def write (m : Mem α) (a : Int) (x : α) : Mem α := fun b => if b = a then x else m b
 end Mem
 
-/-! ### loops over `elements_iterator_t` -/
+/-! ### loops over `elements_iterator_t`
+
+`++it` is `ElemIt.inc : ElemIt → Option ElemIt` (`none` = the division by zero inside `from_linear`, never reached from a
+constructed iterator).  Every loop performs the same increments as the C++ — including the last one, which steps the
+iterators to (or past) the end — so a loop is `none` exactly when one of its increments is. -/
 namespace ElemIt
 
 /-- `std::copy(first, last, d_first)`, `n = last - first`: `*d = *s; ++s; ++d;` -/
-def copyN : Nat → ElemIt → ElemIt → Mem α → Mem α
-  | 0, _, _, m => m
-  | n + 1, s, d, m => copyN n s.inc d.inc (m.write d.current (m s.current))
+def copyN : Nat → ElemIt → ElemIt → Mem α → Option (Mem α)
+  | 0, _, _, m => some m
+  | n + 1, s, d, m => do
+    let m' := m.write d.current (m s.current)
+    let s' ← s.inc
+    let d' ← d.inc
+    copyN n s' d' m'
 
 /-- the same loop when the source iterator yields rvalues (`element_moved()`, `std::move(view).elements()` over a
     move pointer): `*d = std::move(*s)`; the moved-from element is left in the state `moved` that the element
     type's move assignment prescribes (for trivially movable types `moved` is never written: use `copyN`). -/
-def moveN (moved : α) : Nat → ElemIt → ElemIt → Mem α → Mem α
-  | 0, _, _, m => m
-  | n + 1, s, d, m => moveN moved n s.inc d.inc ((m.write d.current (m s.current)).write s.current moved)
+def moveN (moved : α) : Nat → ElemIt → ElemIt → Mem α → Option (Mem α)
+  | 0, _, _, m => some m
+  | n + 1, s, d, m => do
+    let m' := (m.write d.current (m s.current)).write s.current moved
+    let s' ← s.inc
+    let d' ← d.inc
+    moveN moved n s' d' m'
 
 /-- `std::copy_n(values.begin(), n, d_first)` from a sequence of values (initializer list, decayed row) -/
-def storeN : List α → ElemIt → Mem α → Mem α
-  | [], _, m => m
-  | x :: xs, d, m => storeN xs d.inc (m.write d.current x)
+def storeN : List α → ElemIt → Mem α → Option (Mem α)
+  | [], _, m => some m
+  | x :: xs, d, m => do
+    let m' := m.write d.current x
+    let d' ← d.inc
+    storeN xs d' m'
 
 /-- `std::swap_ranges(first1, last1, first2)`: `std::iter_swap(a, b)` = `tmp = *a; *a = *b; *b = tmp` -/
-def swapN : Nat → ElemIt → ElemIt → Mem α → Mem α
-  | 0, _, _, m => m
-  | n + 1, a, b, m =>
+def swapN : Nat → ElemIt → ElemIt → Mem α → Option (Mem α)
+  | 0, _, _, m => some m
+  | n + 1, a, b, m => do
     let x := m a.current
     let y := m b.current
-    swapN n a.inc b.inc ((m.write a.current y).write b.current x)
+    let m' := (m.write a.current y).write b.current x
+    let a' ← a.inc
+    let b' ← b.inc
+    swapN n a' b' m'
 
-/-- `std::equal(first1, last1, first2)`: `if(!(*first1 == *first2)) return false;` -/
-def equalN [DecidableEq α] (m : Mem α) : Nat → ElemIt → ElemIt → Bool
-  | 0, _, _ => true
-  | n + 1, a, b => if m a.current = m b.current then equalN m n a.inc b.inc else false
+/-- `std::equal(first1, last1, first2)`: `for(; first1 != last1; ++first1, ++first2) if(!(*first1 == *first2)) return false;` -/
+def equalN [DecidableEq α] (m : Mem α) : Nat → ElemIt → ElemIt → Option Bool
+  | 0, _, _ => some true
+  | n + 1, a, b =>
+    if m a.current = m b.current then do
+      let a' ← a.inc
+      let b' ← b.inc
+      equalN m n a' b'
+    else some false
 
 /-- the values a range yields when it is read front to back (`array(view)` / `decay()` copy-construct from
     `elements()`; also what `std::vector<T>(elements().begin(), elements().end())` holds) -/
-def readN (m : Mem α) : Nat → ElemIt → List α
-  | 0, _ => []
-  | n + 1, it => m it.current :: readN m n it.inc
+def readN (m : Mem α) : Nat → ElemIt → Option (List α)
+  | 0, _ => some []
+  | n + 1, it => do
+    let x := m it.current
+    let it' ← it.inc
+    let rest ← readN m n it'
+    pure (x :: rest)
 
 end ElemIt
 
@@ -106,7 +133,7 @@ def assign (dst src : ElemRange) (m : Mem α) : Option (Mem α) :=
     let b ← src.begin'
     let e ← src.end'
     let d ← dst.begin'
-    pure (ElemIt.copyN (e.diff b).toNat b d m)
+    ElemIt.copyN (e.diff b).toNat b d m
 
 /-- the same operator when `other` is an rvalue range over a move pointer (`element_moved()`) -/
 def assignMoved (moved : α) (dst src : ElemRange) (m : Mem α) : Option (Mem α) :=
@@ -116,7 +143,7 @@ def assignMoved (moved : α) (dst src : ElemRange) (m : Mem α) : Option (Mem α
     let b ← src.begin'
     let e ← src.end'
     let d ← dst.begin'
-    pure (ElemIt.moveN moved (e.diff b).toNat b d m)
+    ElemIt.moveN moved (e.diff b).toNat b d m
 
 /-- `elements_range_t::operator=(std::initializer_list<value_type>)` 1016-1020:
     `BOOST_MULTI_ASSERT(values.size() == size()); adl_copy_n(values.begin(), values.size(), begin());`
@@ -125,7 +152,7 @@ def assignVals (dst : ElemRange) (vals : List α) (m : Mem α) : Option (Mem α)
   if (vals.length : Int) ≠ dst.size then none
   else do
     let d ← dst.begin'
-    pure (ElemIt.storeN vals d m)
+    ElemIt.storeN vals d m
 
 /-- `elements_range_t::swap` 964-967: `BOOST_MULTI_ASSERT(size() == other.size()); adl_swap_ranges(begin(), end(), other.begin())` -/
 def swap (a b : ElemRange) (m : Mem α) : Option (Mem α) :=
@@ -134,7 +161,7 @@ def swap (a b : ElemRange) (m : Mem α) : Option (Mem α) :=
     let ab ← a.begin'
     let ae ← a.end'
     let bb ← b.begin'
-    pure (ElemIt.swapN (ae.diff ab).toNat ab bb m)
+    ElemIt.swapN (ae.diff ab).toNat ab bb m
 
 /-- `elements_range_t::operator==` 955-958: `size() == other.size() && adl_equal(other.begin(), other.end(), begin())` -/
 def eq [DecidableEq α] (self other : ElemRange) (m : Mem α) : Option Bool :=
@@ -143,7 +170,7 @@ def eq [DecidableEq α] (self other : ElemRange) (m : Mem α) : Option Bool :=
     let ob ← other.begin'
     let oe ← other.end'
     let sb ← self.begin'
-    pure (ElemIt.equalN m (oe.diff ob).toNat ob sb)
+    ElemIt.equalN m (oe.diff ob).toNat ob sb
 
 /-- `elements_range_t::operator!=` 959-962: `size() != other.size() || ! adl_equal(other.begin(), other.end(), begin())` -/
 def ne [DecidableEq α] (self other : ElemRange) (m : Mem α) : Option Bool :=
@@ -152,13 +179,13 @@ def ne [DecidableEq α] (self other : ElemRange) (m : Mem α) : Option Bool :=
     let ob ← other.begin'
     let oe ← other.end'
     let sb ← self.begin'
-    pure (!(ElemIt.equalN m (oe.diff ob).toNat ob sb))
+    (ElemIt.equalN m (oe.diff ob).toNat ob sb).map fun r => !r
 
 /-- the values of the range, front to back -/
 def read (r : ElemRange) (m : Mem α) : Option (List α) := do
   let b ← r.begin'
   let e ← r.end'
-  pure (ElemIt.readN m (e.diff b).toNat b)
+  ElemIt.readN m (e.diff b).toNat b
 
 end ElemRange
 
@@ -268,7 +295,7 @@ def swap (a b : View) (m : Mem α) : Option (Mem α) :=
       let ab ← (ElemRange.ofView a).begin'
       let ae ← (ElemRange.ofView a).end'
       let bb ← (ElemRange.ofView b).begin'
-      pure (ElemIt.swapN (ae.diff ab).toNat ab bb m)
+      ElemIt.swapN (ae.diff ab).toNat ab bb m
     else none
 
 /-- the value of a view: its elements in canonical order (what `array(view)`, `+view`, `decay()` copy) -/
